@@ -199,6 +199,112 @@ async fn burst_case(rng: &mut Rng, n: usize, queue: u32, pipe: usize) -> (String
   (line, xhex(&got))
 }
 
+
+/// The server ends the connection (shutdown, or a close requested through its `ConnTx`) while the writer is blocked in
+/// the middle of a batch because the peer has stopped reading; the peer then reads everything.  Whatever the timing,
+/// what arrives must be whole frames in queue order, then at most one closing ERROR frame, then nothing.
+async fn interrupted_case(rng: &mut Rng, n: usize, pipe: usize, how: &str) -> (String, String) {
+  let slot = Arc::new(Mutex::new(None));
+  let mut cfg = conn_config(4096, 1024, 1 << 20);
+  cfg.outbound_message_queue_size = 512;
+  let mng: ConnManager<C2sService> = ConnManager::new(cfg);
+  let (mut a, b) = tokio::io::duplex(pipe);
+  let f = TxGrabber(slot.clone());
+  let m2 = mng.clone();
+  tokio::task::spawn_local(async move {
+    m2.run_connection(b.compat(), f).await;
+  });
+  tokio::time::sleep(Duration::from_millis(1)).await;
+  let tx = slot.lock().unwrap().clone().expect("connection did not start");
+  let pool = Pool::new(n + 1, 1024);
+  let mut dummy = Vec::new();
+  let mut expect_frames: Vec<Vec<u8>> = Vec::new();
+  let mut got = Vec::new();
+  let mut buf = vec![0u8; 70000];
+  for i in 0..n {
+    let (msg, payload) = gen_frame(rng, i as u32, &mut dummy);
+    let mut hb = vec![0u8; 4096];
+    let k = serialize(&msg, &mut hb).unwrap();
+    let mut fr = hb[..k].to_vec();
+    let pb = match &payload {
+      Some(p) => {
+        fr.extend_from_slice(p);
+        fr.push(b'\n');
+        Some(pool_buffer(&pool, p).await)
+      },
+      None => None,
+    };
+    expect_frames.push(fr);
+    tx.send_message_with_payload(msg, pb);
+  }
+  // let the writer run into the full pipe; the peer takes a few bytes so that the stall is somewhere inside a frame
+  tokio::time::sleep(Duration::from_millis(1)).await;
+  let nibble = rng.below(1 + 2 * pipe as u64).min(40) as usize;
+  if nibble > 0 {
+    if let Ok(Ok(k)) = tokio::time::timeout(Duration::from_millis(5), a.read(&mut buf[..nibble])).await {
+      got.extend_from_slice(&buf[..k]);
+    }
+  }
+  tokio::time::sleep(Duration::from_millis(1)).await;
+  let err: &[u8] = if how == "shutdown" {
+    let m3 = mng.clone();
+    tokio::task::spawn_local(async move {
+      let _ = m3.shutdown().await;
+    });
+    b"ERROR reason=SERVER_SHUTTING_DOWN\n"
+  } else {
+    tx.close(Message::Error(ErrorParameters { id: None, reason: "POLICY_VIOLATION".into(), detail: None }));
+    b"ERROR reason=POLICY_VIOLATION\n"
+  };
+  tokio::time::sleep(Duration::from_millis(rng.below(3))).await;
+  // now the peer reads everything
+  let mut idle = 0;
+  loop {
+    let want = match rng.below(3) {
+      0 => 1,
+      1 => 5,
+      _ => 65536,
+    };
+    match tokio::time::timeout(Duration::from_millis(20), a.read(&mut buf[..want])).await {
+      Ok(Ok(0)) | Ok(Err(_)) => break,
+      Ok(Ok(k)) => {
+        got.extend_from_slice(&buf[..k]);
+        idle = 0;
+      },
+      Err(_) => {
+        idle += 1;
+        if idle > 2 {
+          break;
+        }
+      },
+    }
+  }
+  // whole frames, in order, as a prefix of the queue; then optionally the closing ERROR; then nothing
+  let mut off = 0;
+  let mut i = 0;
+  while i < expect_frames.len() {
+    let fr = &expect_frames[i];
+    if got.len() >= off + fr.len() && got[off..off + fr.len()] == fr[..] {
+      off += fr.len();
+      i += 1;
+    } else {
+      break;
+    }
+  }
+  let rest = &got[off..];
+  let ok = rest.is_empty() || rest == err;
+  if !ok {
+    FAILS.with(|f| {
+      f.borrow_mut().push(format!(
+        "C15: [interrupted-write] {how} while the writer was blocked mid-batch ({n} frames, pipe {pipe} bytes): after {i} whole frames the peer          received {} bytes that are neither the next frame nor the closing ERROR: {}",
+        rest.len(),
+        String::from_utf8_lossy(&rest[..rest.len().min(120)]).escape_debug()
+      ))
+    });
+  }
+  (format!("interrupted how={how} n={n} pipe={pipe}"), if ok { "INTERRUPTED-OK".into() } else { format!("INTERRUPTED-BAD {}", xhex(rest)) })
+}
+
 thread_local! {
   pub static FAILS: std::cell::RefCell<Vec<String>> = const { std::cell::RefCell::new(Vec::new()) };
 }
@@ -294,6 +400,14 @@ pub async fn run_suite(seed: u64, cases: usize) -> String {
     if case % 3 == 0 {
       for _ in 0..20 {
         let (l, o) = wav_case(&mut rng).await;
+        let _ = writeln!(t, "{l}\nimpl {o}");
+      }
+    } else if case % 3 == 1 && case % 2 == 0 {
+      for _ in 0..4 {
+        let n = *rng.pick(&[1usize, 2, 3, 5, 20, 130]);
+        let pipe = *rng.pick(&[1usize, 7, 20, 64]);
+        let how = *rng.pick(&["shutdown", "close"]);
+        let (l, o) = interrupted_case(&mut rng, n, pipe, how).await;
         let _ = writeln!(t, "{l}\nimpl {o}");
       }
     } else {
